@@ -234,11 +234,16 @@ def run_case(ctx, g):
         ctx.count("hand_built_rows:numeric t_ref")
         if pr.p >= 2:
             ctx.count("hand_built_rows:numeric t_ref with trend")
-    hb = tj.JokerSamples(t_ref=hb_tref, poly_trend=pr.p, n_offsets=pr.q)
+    rewrap = g["index"] % 3 == 2
+    hb = tj.JokerSamples(t_ref=None if rewrap else hb_tref, poly_trend=pr.p, n_offsets=pr.q)
     hb["P"] = [th["P"]] * u.day; hb["e"] = [th["e"]] * u.one; hb["omega"] = [th["omega"]] * u.rad
     hb["M0"] = [th["M0"]] * u.rad; hb["s"] = [th["s"]] * du
     for nm, un, v in zip(names, units, x):
         hb[nm] = [v] * un
+    if rewrap:
+        # an epoch-less table (e.g. prior samples) given its reference epoch on construction: JokerSamples(table, t_ref=...)
+        hb = tj.JokerSamples(hb.tbl, t_ref=hb_tref)
+        ctx.count("hand_built_rows:epoch-less table re-wrapped with t_ref")
     tt = np.concatenate([c["t"], c["t_ref"] + rng.uniform(-100, 1000, 4)])
     try:
         rv_api = hb.get_orbit(0).radial_velocity(Time(tt, format="mjd", scale="tcb")).to_value(du)
@@ -264,6 +269,7 @@ def run_case(ctx, g):
 def post(ctx):
     ctx.rule = RULE
     ctx.require("data with the reference epoch disabled (t_ref=False)", ctx.counters["disabled_tref"], 1)
+    ctx.require("epoch-less tables re-wrapped with an explicit t_ref", ctx.counters["hand_built_rows:epoch-less table re-wrapped with t_ref"], 5)
     ctx.require("hand-built rows with a numeric reference epoch and a trend", ctx.counters["hand_built_rows:numeric t_ref with trend"], 3)
     c = ctx.counters
     if not ctx.replay_mode:
